@@ -3,12 +3,12 @@
    A register file maps names to values; a name that was never written has no value and reads as
    NULL.  A history is a list of operations performed one after the other:
 
-     Get k      read register k (the value read is recorded);
-     Set k f    write register k; the value written may be computed from the registers' contents
-                at that moment (a counter is  Set k (fun r => Some (rd r k + 1)) ; a constant is
-                Set k (fun _ => Some v)); if the computation fails, nothing is written and the
+     RGet k      read register k (the value read is recorded);
+     RSet k f    write register k; the value written may be computed from the registers' contents
+                at that moment (a counter is  RSet k (fun r => Some (rd r k + 1)) ; a constant is
+                RSet k (fun _ => Some v)); if the computation fails, nothing is written and the
                 history stops there;
-     Abort      the history stops here (an evaluation error that does not involve the registers).
+     RAbort      the history stops here (an evaluation error that does not involve the registers).
 
    [run_reg r h] returns the values read, the final register file and whether the history was
    cut short.  "Last write wins, unset reads as NULL" is all there is to it.  This file does not
@@ -24,36 +24,36 @@ Definition wr (r : regs) (k : string) (v : value) : regs :=
   fun k' => if String.eqb k' k then Some v else r k'.
 
 Inductive op :=
-| Get (k : string)
-| Set (k : string) (f : regs -> option value)
-| Abort.
+| RGet (k : string)
+| RSet (k : string) (f : regs -> option value)
+| RAbort.
 
 Definition history := list op.
 
 Fixpoint run_reg (r : regs) (h : history) : list value * regs * bool :=
   match h with
   | [] => ([], r, false)
-  | Get k :: h' =>
+  | RGet k :: h' =>
       let '(reads, r', ab) := run_reg r h' in (rd r k :: reads, r', ab)
-  | Set k f :: h' =>
+  | RSet k f :: h' =>
       match f r with
       | Some v => run_reg (wr r k v) h'
       | None => ([], r, true)
       end
-  | Abort :: _ => ([], r, true)
+  | RAbort :: _ => ([], r, true)
   end.
 
 (* the writes a history performs from [r], resolved to values, oldest first *)
 Fixpoint writes (r : regs) (h : history) : list (string * value) :=
   match h with
   | [] => []
-  | Get _ :: h' => writes r h'
-  | Set k f :: h' =>
+  | RGet _ :: h' => writes r h'
+  | RSet k f :: h' =>
       match f r with
       | Some v => (k, v) :: writes (wr r k v) h'
       | None => []
       end
-  | Abort :: _ => []
+  | RAbort :: _ => []
   end.
 
 (* the last value written to k, if any *)
